@@ -1,18 +1,49 @@
 """CX2 coverage extension: trace buffer, kept-reason interning, generic Set and Fanout helpers."""
 
+_CACHE = ["collect/cache/cx2_buffer_test.go", "collect/cache/cx2_reasons_test.go"]
+_GEN = ["generics/cx2_set_test.go", "generics/cx2_fanout_test.go", "generics/cx2_fanouttrace_test.go"]
+
 PROP = dict(
     level="model_checking",
-    technique="TLA+ specs TraceBuffer.tla, KeptReasons.tla (more to come) model-checked by TLC; every generated transition replayed into the real objects",
-    design_ref="pending_fixes/CX2-design.md",
-    level_text="(under construction)",
-    level_note="(under construction)",
-    assumptions=[],
+    technique="TLA+ specs TraceBuffer.tla, KeptReasons.tla, GenSet.tla, Fanout.tla (sequential meaning) and FanoutConc.tla (goroutines and channels) model-checked by TLC; "
+              "every generated transition replayed into the real DefaultInMemCache / KeptReasonsCache / generics.Set / Fanout* (spec->code transition tour), "
+              "and event logs of the real Fanout* validated by TLC against FanoutConc (code->spec trace validation)",
+    design_ref="pending_fixes/CX2-design.md (to become a DESIGN.md section)",
+    level_text="TraceBuffer: TLC explores every order of Set (new object / same object with another SendBy / replacing object), Set(nil), RemoveTraces (present, absent and unknown ids) and "
+               "TakeExpiredTraces(now, max incl. 0 and -1, filter nil/accepting/rejecting) for 3-4 trace ids, with TakeExpiredTraces modelled as the pop/skip/push-back loop of the code, and checks "
+               "GetReturnsLive, QueueMatchesMap, TakenAreGone and the action properties TakeContract (exactly the live, expired, accepted traces, earliest SendBy first, at most max, removed exactly, none twice), "
+               "OnlyNamedLeave (no eviction) and SetExact; every transition is executed on a real DefaultInMemCache through the Cache interface and Get/GetAll/GetCacheEntryCount/GetCacheCapacity and the returned "
+               "slice (object identity included) are compared. KeptReasons: all Set orders over 3-5 reasons (incl. the empty string) with RoundTrip, Interned, Dense, Stable; Get is asked for every key after every step. "
+               "GenSet: all Add/Remove/AddMembers/Intersect/Difference/Union sequences on two sets over 2-3 elements (operands untouched, result not aliased, Members lists each element once). "
+               "Fanout: every call of Fanout/EasyFanout/FanoutToMap/EasyFanoutToMap/FanoutChunksToMap over all inputs up to length 3-4 (duplicates included), parallelism 1-4, predicate and cleanup on/off, chunk sizes 1-3 is executed "
+               "with real goroutines and the returned slice (multiset) / map, the inputs the workers saw, the factory and cleanup calls (index, once, after the worker's last input, before return) are compared with the sequential meaning; "
+               "FanoutConc: TLC checks on the goroutine/channel model that every interleaving terminates without deadlock in exactly that meaning (AtReturn, Terminates), never sends on a closed channel, runs cleanup last and is quiescent at return; "
+               "logged callback invocations of the real functions are accepted by TLC as behaviours of that model (thorough tier: recorded under the Go race detector, a data race is a violation).",
+    level_note="Exhaustive only within the bounds (spec/MC_TraceBuffer_*.cfg, MC_KeptReasons*.cfg, MC_GenSet_*.cfg, MC_Fanout_*.cfg, MC_FanoutConc_*.cfg). TraceBuffer: a Trace whose SendBy is changed without calling Set again is "
+               "not explored (nothing is promised; the collector always calls Set); ties of equal SendBy are free, so specification states that only another tie order reaches stay unvisited by the walker; the histogram observation is open. "
+               "KeptReasons: the 64-bit wyhash is taken as injective on the reasons used; concurrency of Set/Get (one mutex) is not explored here (C31/C35 exercise it). "
+               "Fanout: parallelism < 1 and chunkSize < 1 are outside the documented domain (the model shows the deadlock for parallelism 0); the real scheduler picks the interleavings of the walk and trace stages, "
+               "all interleavings are covered only on the model; a watchdog of 30 s turns a call that never returns into an observed 'hang' instead of a test time-out.",
+    assumptions=["wyhash: no collision among the reasons used", "rdleal/go-priorityq kpq is a correct keyed heap (exercised, not modelled beyond 'pops a minimal key')",
+                 "bounded: 3-4 trace ids, 2 object generations, SendBy in 1..3; 3-5 reasons; 2-3 set elements; inputs up to 4-5 elements, parallelism up to 4"],
     stages=[
-        dict(kind="walk", name="TraceBuffer", module="TraceBuffer", pkg="collect/cache", test="TestVerifCX2Buffer",
-             harness=["collect/cache/cx2_buffer_test.go", "collect/cache/cx2_reasons_test.go"],
+        dict(kind="walk", name="TraceBuffer", module="TraceBuffer", pkg="collect/cache", test="TestVerifCX2Buffer", harness=_CACHE,
              cfg={"quick": "MC_TraceBuffer_q.cfg", "thorough": "MC_TraceBuffer_big.cfg"}, budget={"quick": 20, "thorough": 90}),
-        dict(kind="walk", name="KeptReasons", module="KeptReasons", pkg="collect/cache", test="TestVerifCX2Reasons",
-             harness=["collect/cache/cx2_buffer_test.go", "collect/cache/cx2_reasons_test.go"],
+        dict(kind="walk", name="TraceBuffer-4ids", module="TraceBuffer", pkg="collect/cache", test="TestVerifCX2Buffer", harness=_CACHE,
+             cfg={"quick": None, "thorough": "MC_TraceBuffer_big4.cfg"}, budget={"quick": 20, "thorough": 60}, tiers=("thorough",)),
+        dict(kind="walk", name="KeptReasons", module="KeptReasons", pkg="collect/cache", test="TestVerifCX2Reasons", harness=_CACHE,
              cfg={"quick": "MC_KeptReasons.cfg", "thorough": "MC_KeptReasons_big.cfg"}, budget={"quick": 10, "thorough": 30}),
+        dict(kind="walk", name="GenSet", module="GenSet", pkg="generics", test="TestVerifCX2Set", harness=_GEN,
+             cfg={"quick": "MC_GenSet_q.cfg", "thorough": "MC_GenSet_big.cfg"}, budget={"quick": 10, "thorough": 30}),
+        dict(kind="walk", name="Fanout", module="Fanout", pkg="generics", test="TestVerifCX2Fanout", harness=_GEN,
+             cfg={"quick": "MC_Fanout_q.cfg", "thorough": "MC_Fanout_big.cfg"}, budget={"quick": 20, "thorough": 90}),
+        dict(kind="tlc", name="Fanout-ideal", module="Fanout", cfg={"quick": None, "thorough": "MC_Fanout_ideal.cfg"}, workers=4, timeout=300),
+        dict(kind="tlc", name="FanoutConc", module="FanoutConc", cfg={"quick": "MC_FanoutConc_q.cfg", "thorough": "MC_FanoutConc_big.cfg"}, workers=8, timeout=300),
+        dict(kind="tlc", name="FanoutConc-ceil", module="FanoutConc", cfg={"quick": None, "thorough": "MC_FanoutConc_ceil.cfg"}, workers=8, timeout=300),
+        dict(kind="trace", name="TraceFanoutConc", module="TraceFanoutConc", cfg=["TraceFanoutConc.cfg", "TraceFanoutConc_ceil.cfg"], pkg="generics",
+             test="TestVerifCX2FanoutTrace", harness=_GEN, budget={"quick": 10, "thorough": 30}, tiers=("quick",)),
+        # thorough: the same driver under the Go race detector (a race between the collector goroutine and the caller is a violation)
+        dict(kind="trace", name="TraceFanoutConc-race", module="TraceFanoutConc", cfg=["TraceFanoutConc.cfg", "TraceFanoutConc_ceil.cfg"], pkg="generics",
+             test="TestVerifCX2FanoutTrace", harness=_GEN, budget={"quick": 10, "thorough": 30}, race=True, race_oracle=True, tiers=("thorough",)),
     ],
 )
